@@ -1,28 +1,49 @@
 import PepperModel.Generated.Tables
 import PepperProofs.Finish
+import PepperProofs.EndToEndMain
 /-!
-# C06 — any valid design flows through to finished sequences that satisfy the source  (PARTIAL)
+# C06 — any valid design flows through to finished sequences that satisfy the source
 
-This file carries the LAST stage of the end-to-end statement: design text → `.mfe` reader → `apply_design`
-on the saved system → the two output files (model `PepperModel/Finish.lean`; vocabulary `Relations`,
-`CompRel`, `AtomOk`, `IsConcat`, `IsJoin`, `render`, `finishText` in `PepperProofs/Finish.lean`).
+"For every accepted program and every nucleotide assignment that satisfies the emitted constraint arrays, loading the
+assignment, writing the .mfe design and finishing against the saved compiler state succeeds, and the resulting sequences
+satisfy the source program: every named sequence matches its constraint, starred sequences are reverse complements,
+every strand and super-sequence is the concatenation of its domains, every target base pair is Watson-Crick, and ports
+bound to one signal agree.  The .seqs file lists every sequence, strand and structure and the strands-to-order file
+exactly the non-dummy strands."
 
-PARTIAL.  What the other stages contribute, and is NOT restated here:
-* C01 / C02 (compile): the saved tree and the emitted `.pil` denote the source program;
-* C04 (arrays): an assignment satisfying the `st`/`eq`/`wc` arrays satisfies the `.pil` — this is where
-  *template membership* of every sequence and *Watson–Crick pairing of every target pair* come from;
-* C05 (files) and C19 (designer): the assignment the designer prints satisfies the arrays;
-* C16: the reloaded state has the snapshot of the in-memory one.
-`finish_satisfies_partial` therefore states the relations that `finish` itself establishes and checks
-(length, complementarity, concatenation, structure = join of strands = its own record) and not template
-membership / target pairs.  The harness (`harness/props/c06.py`) runs the whole real chain and applies the
-full `SatSrc` oracle to the real `.seqs`.
+**Part 2 of this file is the composition** (`end_to_end`, `end_to_end_component`): the chain
+compile (`Sys.loadFile` / `Comp.load`, C01/C02) → emitted PIL → `Pil.load` → `getConstraints` (C04/C15) →
+ANY string with `ArraysGood a nts` (this replaces the designer; C05/C19 say the real one delivers such a string) →
+`Mfe.processResults` → `Mfe.output` → `Finish.apply` on the saved tree → `SatSrc` against the design the SOURCE
+denotes (`Denote.denoteFile`).  Vocabulary (`ArraysGood`, `spell`, `letter`/`spellT`, `Entries`, `SatSrc`, `mfeRecs`)
+in `PepperProofs/EndToEnd.lean`; stage lemmas in `PepperProofs/EndToEndAsg.lean` (arrays ↦ assignment),
+`EndToEndLayout(T).lean` (where the strands sit on the line), `EndToEndMfe.lean` (`process_results`, `output`),
+`EndToEndTree.lean` (the saved tree sits in the loaded specification), `EndToEndFinish.lean` (`apply_design`),
+`EndToEndMain.lean` (composition).
+
+What is proved at FULL strength: `end_to_end` (systems to any depth) and `end_to_end_component`, strand layout (the
+default of `pepper-design-spurious`), and `end_to_end_struct` (structure layout, when every strand is non-empty and
+occurs in a structure — otherwise `get_constraints` itself raises).
+Hypotheses: the decidable bundle hypotheses of C01/C02 (`bundleOk`), and `MfeNamesDistinct spec` — the `.mfe` file has
+ONE namespace for structures, sequences and starred sequences; without it the property is FALSE (known finding F13:
+`sequence X`, `structure X`; the harness keeps the probe).  Two facts a reader should know, both visible in `SatSrc`:
+* an UNDESIGNED sequence (one that lies on no strand) keeps its template in the `.mfe` and hence in the `.seqs` file:
+  `spellT` writes the base on designed positions and the template code elsewhere;
+* signal connector sequences are part of the design (`d.seqs`) but not of the saved tree, so they have no entry:
+  the entry clauses run over the entries of `out` that are named in `d`.
+
+Still partial (see `text_level_GOAL` at the end): the step from the LINES of the `.mfe` file to the record list is stated
+on the record list (`mfeLines` ↔ `mfeRecs` ↔ `mfeDesign`); the text level is `through_the_file` / C17
+`reader_roundtrip`, whose records need a genuine float where the model writes the opaque token `GC`.
+
+**Part 1** is the finish stage on its own (`Relations`, `CompRel`, `AtomOk`, `IsConcat`, `IsJoin`, `render`,
+`finishText` in `PepperProofs/Finish.lean`) and the two file-listing clauses.
 -/
 namespace Pepper.C06
 open Pepper Pepper.Finish Pepper.Comp Pepper.Sys
 
-/-- PARTIAL (missing: template membership and Watson–Crick pairing of target pairs, which come from the
-    constraint arrays — C04/C19).  If finishing succeeds, the finished sequences satisfy the saved system's
+/-- The finish stage alone — PARTIAL as a statement of C06 (missing: template membership and Watson–Crick pairing of
+    target pairs, which come from the constraint arrays; the full statement is `end_to_end` below).  If finishing succeeds, the finished sequences satisfy the saved system's
     relations (`Relations`): every non-dummy atomic sequence has its declared length and its starred view is
     its reverse complement, every super-sequence and strand is the concatenation of its domains
     (reverse-complemented where referenced reversed), every structure is the `+`-join of its strands and
@@ -115,6 +136,329 @@ example : (apply Generated.dnaTable exInst exD).toOption.map seqsFile = some
   decide +kernel
 
 example : (apply Generated.dnaTable exInst exD).toOption.map strandsFile = some ["strand c-S\tACGAA"] := by
+  decide +kernel
+
+end Pepper.C06
+
+/-! # Part 2 — the composition -/
+namespace Pepper.C06
+open Pepper Pepper.Pil Pepper.ConstraintGen Pepper.LinkSpec Pepper.EndToEnd
+
+/-! ### the stage lemmas, each usable on its own -/
+
+/-- **Stage 1 (arrays ↦ assignment), both layouts.**  For a document the reader accepts, arrays returned by
+    `get_constraints` (after a non-raising seeding `hs`/`hb`, a theorem in the strand layout) and ANY nucleotide string
+    that satisfies them (`ArraysGood`): there is an assignment of bases to ALL domain positions that satisfies the
+    specification — every position in its template's set, every `equal` line position-wise equal, every base pair
+    Watson–Crick (`LinkSpec.Sat`) — and whose value at the nucleotide sitting at every non-blank index `i` is `nts[i]`.
+    (Two indices carrying linked nucleotides share `eq[·]` / are joined by `wc[·]` — C04 `arrays_exact`; positions on
+    no strand get a base of their class by C15's core.) -/
+theorem assignment_of_good {mode : Layout} {stmts : List Stmt} {spec : Spec} {s : Seeds} {c : Cons} {a : Arrays}
+    {nts : List Char} (hload : Pil.load Generated.nupackTable stmts {} = .ok spec)
+    (hs : seeds mode spec = .ok s) (hb : build s = .ok c) (ha : getConstraints mode spec = .ok a)
+    (hg : ArraysGood a nts) :
+    ∃ asg : Var → Base, Sat Generated.pilTable (Pil.denote spec) asg ∧
+      ∀ (i : Nat) (m : Nuc), denOf mode spec i = some m → (∃ ch, a.2.2[i]? = some (some ch)) →
+        nts[i]? = some (val asg m).toChar :=
+  EndToEnd.assignment_of_good hload hs hb ha hg
+
+/-- **Layout (strand mode).**  Every strand has a start in `strand_start`, and the string read there spells the strand
+    under an assignment that reads the letters of the non-blank indices. -/
+theorem strands_read_back {stmts : List Stmt} {spec : Spec}
+    (hload : Pil.load Generated.nupackTable stmts {} = .ok spec) {a : Arrays}
+    (ha : getConstraints .strand spec = .ok a) {nts : List Char} {asg : Var → Base}
+    (hasg : ∀ (i : Nat) (m : Nuc), denOf .strand spec i = some m → (∃ ch, a.2.2[i]? = some (some ch)) →
+      nts[i]? = some (val asg m).toChar) :
+    StartOk spec (startOf .strand spec) nts asg :=
+  startOk_strand hload ha hasg
+
+/-- **Stage 2 (`process_results`).**  On a well-formed specification, for any `strand_start` and string such that every
+    strand's slice spells the strand (`StartOk`): `process_results` raises none of "designed with 2 different
+    sequences", "length mismatch", a letter without complement, an index outside the string; it collects the strands'
+    strings, and leaves a `Good` state: every set sequence spells its nucleotides under `asg`, and the atomic sequence
+    of every position that lies on a strand is set. -/
+theorem processResults_ok {t : CodeTable} (hB : complBases t = true) {spec : Spec} (wf : SpecWF spec)
+    {asg : Var → Base} {start : StrandObj → Option Nat} {nts : List Char} (hst : StartOk spec start nts asg) :
+    ∃ a, Mfe.processResults t spec start nts =
+        .ok (a, spec.strands.map (fun st => (st.name, spell asg (nucsOfBases st.bases)))) ∧ Good spec asg a :=
+  EndToEnd.processResults_ok hB wf hst
+
+/-- **Stage 3 (`output`, `findmfe=False`).**  After `process_results`, `output` succeeds and writes exactly the records
+    `mfeRecs` (as the lines `mfeLines`: `Finish.renderLines` of the records with the opaque token `GC` in the GC-content
+    field): one record per structure — the `+`-join of its strands' letters —, then per sequence its letters (`spellT`:
+    designed bases, or the template where the sequence lies on no strand) and the starred record with their reverse
+    complement.  This step is stated on the record list; the text level is `text_level_partial`. -/
+theorem output_ok {t : CodeTable} (hl : t.lawful = true) (hB : complBases t = true) {spec : Spec} (wf : SpecWF spec)
+    (ok : SpecCodes t spec) {asg : Var → Base} {a : Mfe.Assigned} (hg : Good spec asg a) :
+    Mfe.output t spec a (spec.strands.map (fun st => (st.name, spell asg (nucsOfBases st.bases)))) =
+      some (mfeLines t spec asg) :=
+  EndToEnd.output_ok hl hB wf ok hg
+
+/-- **The saved tree sits in the loaded specification** (the correspondence between the compiler-side tables `Inst` and
+    the designer-side `Spec = Pil.load (instStmts inst)`): every sequence of non-zero length, every strand and every
+    structure of every component of the tree is found in the specification, under its full name, as the PIL object of
+    the table entry (`pilObj`, `pilStrand`, `pilStruct`: same lengths, item lists, `base_seqs`). -/
+theorem tree_in_spec {tbl : CodeTable} {Q : Sys.SSrc → Prop} {pfx : String} {inst : Sys.Inst}
+    (hL : LoadInv.Loaded (fun c => LoadInv.StmtNamesOk c = true ∧ Comp.CodesOk tbl c = true) Q pfx inst)
+    {spec : Spec} (hload : Pil.load tbl (Emit.instStmts inst) {} = .ok spec) : TreeIn spec inst :=
+  treeIn_of_load hL hload
+
+/-- **Stage 4 (`finish`).**  `apply_design` on the saved tree accepts the `name ↦ sequence` list of the records
+    `mfeRecs` (via C17 `accepts_exactly_consistent`: the `Relations` hold), provided the names written into the `.mfe`
+    file are pairwise distinct (`MfeNamesDistinct`, F13); and what it writes spells the design of the specification
+    (`Entries`). -/
+theorem finish_ok {t tF : CodeTable} (hl : t.lawful = true) (hB : complBases t = true) (hc : tF.compl = t.compl)
+    {spec : Spec} (wf : SpecWF spec) (ok : SpecCodes t spec) (hn : MfeNamesDistinct spec) {inst : Sys.Inst}
+    (hin : TreeIn spec inst) (asg : Var → Base) :
+    ∃ out, Finish.apply tF inst (mfeDesign t spec asg) = .ok out ∧ Entries t (Pil.denote spec) asg out :=
+  EndToEnd.finish_ok hl hB hc wf ok hn hin asg
+
+/-- `ArraysGood` is checkable: the executable `arraysGoodB` implies it -/
+theorem arraysGood_checkable {a : Arrays} {nts : List Char} (h : arraysGoodB a nts = true) : ArraysGood a nts :=
+  arraysGood_of_check h
+
+/-- **Every target base pair is Watson–Crick**, read off the finished output: for a structure of the design and its
+    entry in the output, with the strand breaks `+` removed, the letters at the two ends of every base pair of the
+    structure's target are complementary bases. -/
+theorem target_pairs_watson_crick {t : CodeTable} {d : Design} {asg : Var → Base} {out : Finish.Out}
+    (hs : Sat t d asg) (he : Entries t d asg out) {sd : StructD} (hsd : sd ∈ d.structs) {str : List Char}
+    (hm : (sd.name, str) ∈ out.structs) :
+    ∀ ij ∈ pairs sd.struct, ∀ ci cj : Char, (str.filter (· != '+'))[ij.1]? = some ci →
+      (str.filter (· != '+'))[ij.2]? = some cj → ∃ b : Base, ci = b.toChar ∧ cj = b.compl.toChar :=
+  target_pairs_wc hs he hsd hm
+
+/-! ### the composition -/
+
+/-- **C06, end to end (systems to any depth; strand layout).**  For every bundle of sources satisfying the decidable
+    hypotheses of C02 (`bundleOk`), every instance tree `load_file` returns, the specification its emitted PIL loads to
+    (with pairwise distinct `.mfe` names, F13), the arrays `get_constraints` returns for it and EVERY nucleotide string
+    `nts` that satisfies them:
+    * the source denotes a design `d` (`denoteFile`);
+    * `process_results nts` succeeds (`assigned`: the sequences' state, and the strands' strings);
+    * `output` writes exactly the records `mfeRecs … asg`;
+    * `apply_design` on the saved tree accepts their `name ↦ sequence` list, giving `out`;
+    * **`SatSrc`**: the assignment `asg` of bases to the domain positions of `d` satisfies `d` — every position is
+      allowed by its template, every `equals` entry (the ports bound to one signal, with the signal) is position-wise
+      equal, every base pair of every structure's target is Watson–Crick — and the entries of `out` named in `d` are
+      what `asg` spells (`Entries`: strands and structures exactly, complemented where starred, concatenated in domain
+      order; sequences with the template on positions that lie on no strand);
+    * the `.seqs` file lists every sequence, strand and structure of the tree and the strands-to-order file exactly
+      the non-dummy strands (names, in component order; the files are these blocks by definition, `seqs_file_lists_all`,
+      `strands_file_exact`). -/
+theorem end_to_end {b : Sys.Bundle} {fuel : Nat} {base : String} {args : Nat} {argKey pfx path : String}
+    {includes : List String} {anon : Nat} {inst : Sys.Inst} {a' : Nat}
+    (hfile : Sys.loadFile b fuel base args argKey pfx path includes anon = .ok (inst, a'))
+    (hb : SysProofs.bundleOk Generated.nupackTable b = true)
+    {spec : Spec} (hload : Pil.load Generated.nupackTable (Emit.instStmts inst) {} = .ok spec)
+    (hn : MfeNamesDistinct spec) {a : Arrays} (ha : getConstraints .strand spec = .ok a) {nts : List Char}
+    (hg : ArraysGood a nts) :
+    ∃ (d : Design) (ports : List (List Nuc × Bool)) (asg : Var → Base) (assigned : Mfe.Assigned) (out : Finish.Out),
+      Denote.denoteFile b fuel base args argKey pfx path includes anon = .ok (d, ports, a') ∧
+      Mfe.processResults Generated.pilTable spec (startOf .strand spec) nts = .ok (assigned, strandSeqs spec asg) ∧
+      Mfe.output Generated.pilTable spec assigned (strandSeqs spec asg) = some (mfeLines Generated.pilTable spec asg) ∧
+      Finish.apply Generated.dnaTable inst (mfeDesign Generated.pilTable spec asg) = .ok out ∧
+      Sat Generated.pilTable d asg ∧ Entries Generated.pilTable d asg out ∧
+      out.seqs.map (·.1) = (Finish.compsOf 64 inst).flatMap (fun s => s.seqs.map (fun e => s.pfx ++ e.name)) ∧
+      out.strands.map (·.1) = (Finish.compsOf 64 inst).flatMap (fun s => s.strands.map (fun e => s.pfx ++ e.name)) ∧
+      out.structs.map (·.1) = (Finish.compsOf 64 inst).flatMap (fun s => s.structs.map (fun e => s.pfx ++ e.name)) ∧
+      (out.strands.filter (fun x => !x.2.1)).map (·.1) =
+        (Finish.compsOf 64 inst).flatMap (fun s => (s.strands.filter (fun e => !e.dummy)).map (fun e => s.pfx ++ e.name)) := by
+  obtain ⟨spec', d, ports, hload', hden, hrest⟩ := end_to_end_tree hfile hb
+  rw [hload] at hload'
+  cases hload'
+  obtain ⟨asg, assigned, out, hpr, hout, hap, hsat, hent⟩ := hrest hn a ha nts hg
+  have hl := seqs_file_lists_all hap
+  exact ⟨d, ports, asg, assigned, out, hden, hpr, hout, hap, hsat, hent, hl.2.1, hl.2.2.1, hl.2.2.2,
+    (strands_file_exact hap).2⟩
+
+/-- **C06, end to end, in the property's words** (no assignment in the statement): under the hypotheses of
+    `end_to_end`, loading the string succeeds, `output` writes the lines of a record list `R`, finishing the saved tree
+    against `R`'s `name ↦ sequence` list succeeds, and the finished output satisfies the source (`SatSrc`). -/
+theorem end_to_end_satSrc {b : Sys.Bundle} {fuel : Nat} {base : String} {args : Nat} {argKey pfx path : String}
+    {includes : List String} {anon : Nat} {inst : Sys.Inst} {a' : Nat}
+    (hfile : Sys.loadFile b fuel base args argKey pfx path includes anon = .ok (inst, a'))
+    (hb : SysProofs.bundleOk Generated.nupackTable b = true)
+    {spec : Spec} (hload : Pil.load Generated.nupackTable (Emit.instStmts inst) {} = .ok spec)
+    (hn : MfeNamesDistinct spec) {a : Arrays} (ha : getConstraints .strand spec = .ok a) {nts : List Char}
+    (hg : ArraysGood a nts) :
+    ∃ (d : Design) (ports : List (List Nuc × Bool)) (assigned : Mfe.Assigned) (strands : List (String × List Char))
+      (R : List (List Char × Finish.Rec)) (out : Finish.Out),
+      Denote.denoteFile b fuel base args argKey pfx path includes anon = .ok (d, ports, a') ∧
+      Mfe.processResults Generated.pilTable spec (startOf .strand spec) nts = .ok (assigned, strands) ∧
+      Mfe.output Generated.pilTable spec assigned strands =
+        some ((Finish.renderLines R "0.000000".toList).map String.ofList) ∧
+      Finish.apply Generated.dnaTable inst (R.map (fun x => (x.2.name, x.2.seq))) = .ok out ∧
+      SatSrc Generated.pilTable d out := by
+  obtain ⟨d, ports, asg, assigned, out, hden, hpr, hout, hap, hsat, hent, _⟩ := end_to_end hfile hb hload hn ha hg
+  exact ⟨d, ports, assigned, _, mfeRecs Generated.pilTable spec asg, out, hden, hpr, hout, hap, asg, hsat, hent⟩
+
+/-- **C06, end to end, one component (strand layout)**: the same for a single component source, against the design
+    `Denote.denoteComp` assigns to it (C01 in front instead of C02). -/
+theorem end_to_end_component {src : Comp.Src} {n : Nat} {pfx : String} {anon : Nat} {st : Comp.St} {a' : Nat}
+    (hcomp : Comp.load src n pfx anon = .ok (st, a'))
+    (hnames : Comp.UserNamesOk src = true) (hcodes : Comp.CodesOk Generated.nupackTable src = true)
+    {spec : Spec} (hload : Pil.load Generated.nupackTable (Emit.compStmts st) {} = .ok spec)
+    (hn : MfeNamesDistinct spec) {a : Arrays} (ha : getConstraints .strand spec = .ok a) {nts : List Char}
+    (hg : ArraysGood a nts) :
+    ∃ (o : Denote.Out) (ports : List (List Nuc × Bool)) (asg : Var → Base) (assigned : Mfe.Assigned) (out : Finish.Out),
+      Denote.denoteComp src pfx anon = .ok (o, ports, a') ∧
+      Mfe.processResults Generated.pilTable spec (startOf .strand spec) nts = .ok (assigned, strandSeqs spec asg) ∧
+      Mfe.output Generated.pilTable spec assigned (strandSeqs spec asg) = some (mfeLines Generated.pilTable spec asg) ∧
+      Finish.apply Generated.dnaTable (.comp st) (mfeDesign Generated.pilTable spec asg) = .ok out ∧
+      Sat Generated.pilTable (o.design []) asg ∧ Entries Generated.pilTable (o.design []) asg out ∧
+      SatSrc Generated.pilTable (o.design []) out := by
+  obtain ⟨spec', o, ports, hload', hden, hrest⟩ := end_to_end_comp hcomp hnames hcodes
+  rw [hload] at hload'
+  cases hload'
+  obtain ⟨asg, assigned, out, hpr, hout, hap, hsat, hent⟩ := hrest hn a ha nts hg
+  exact ⟨o, ports, asg, assigned, out, hden, hpr, hout, hap, hsat, hent, asg, hsat, hent⟩
+
+/-- **C06, end to end, structure layout** (`pepper-design-spurious --struct-orient`): the same, for specifications in
+    which every strand is non-empty and occurs in some structure (`Placed`; otherwise `get_constraints` adds `None` to
+    an integer and C06 is vacuous there). -/
+theorem end_to_end_struct {b : Sys.Bundle} {fuel : Nat} {base : String} {args : Nat} {argKey pfx path : String}
+    {includes : List String} {anon : Nat} {inst : Sys.Inst} {a' : Nat}
+    (hfile : Sys.loadFile b fuel base args argKey pfx path includes anon = .ok (inst, a'))
+    (hb : SysProofs.bundleOk Generated.nupackTable b = true)
+    {spec : Spec} (hload : Pil.load Generated.nupackTable (Emit.instStmts inst) {} = .ok spec)
+    (hp : Placed spec) (hne : ∀ o ∈ spec.strands, o.len ≠ 0)
+    (hn : MfeNamesDistinct spec) {a : Arrays} (ha : getConstraints .struct spec = .ok a) {nts : List Char}
+    (hg : ArraysGood a nts) :
+    ∃ (d : Design) (ports : List (List Nuc × Bool)) (asg : Var → Base) (assigned : Mfe.Assigned) (out : Finish.Out),
+      Denote.denoteFile b fuel base args argKey pfx path includes anon = .ok (d, ports, a') ∧
+      Mfe.processResults Generated.pilTable spec (startOf .struct spec) nts = .ok (assigned, strandSeqs spec asg) ∧
+      Mfe.output Generated.pilTable spec assigned (strandSeqs spec asg) = some (mfeLines Generated.pilTable spec asg) ∧
+      Finish.apply Generated.dnaTable inst (mfeDesign Generated.pilTable spec asg) = .ok out ∧
+      Sat Generated.pilTable d asg ∧ Entries Generated.pilTable d asg out ∧ SatSrc Generated.pilTable d out := by
+  obtain ⟨spec', d, ports, hload', hden, hrest⟩ := end_to_end_tree_struct hfile hb
+  rw [hload] at hload'
+  cases hload'
+  obtain ⟨asg, assigned, out, hpr, hout, hap, hsat, hent⟩ := hrest hp hne hn a ha nts hg
+  exact ⟨d, ports, asg, assigned, out, hden, hpr, hout, hap, hsat, hent, asg, hsat, hent⟩
+
+/-- PARTIAL — the text level.  Missing: that the records `output` writes are readable by the `.mfe` reader (`wfRec`:
+    every name over the reader's name alphabet, no empty sequence) is a HYPOTHESIS here (decidable, `hwf`), not derived
+    from the compile; and the model writes the opaque token `GC` where the file has the GC-content float, so the
+    statement is for the records with any valid float `g` in that field.  Given that, finishing the TEXT of the `.mfe`
+    file is finishing the record list, so `end_to_end` carries over to `Finish.finishText` verbatim.
+
+    GOAL (full): for `spec` loaded from a compiled tree under the bundle hypotheses,
+    `∀ x ∈ mfeRecsGC pilTable spec asg g, Finish.wfRec alphaMfeSeq x = true` (missing links: every full name
+    `pfx ++ name` of the tree and every signal name is a non-empty word over `isVarChar`; no sequence of the emitted
+    specification has length 0; letters written are in the reader's alphabet `alphaMfeSeq`). -/
+theorem text_level_partial {spec : Spec} {asg : Var → Base} {g : List Char}
+    (hg1 : Finish.okWord Finish.isNumChar g = true) (hg2 : Finish.validFloat g = true)
+    (hwf : ∀ x ∈ mfeRecsGC Generated.pilTable spec asg g, Finish.wfRec Generated.alphaMfeSeq x = true)
+    (inst : Sys.Inst) (out : Finish.Out) :
+    Finish.finishText Generated.dnaTable Generated.alphaMfeSeq inst
+        (Finish.render (mfeRecsGC Generated.pilTable spec asg g) "0.000000".toList) = .ok out ↔
+      Finish.apply Generated.dnaTable inst (mfeDesign Generated.pilTable spec asg) = .ok out :=
+  finish_text_of_records hg1 hg2 hwf inst out
+
+/-! ### non-vacuity: a duplex of two strands over a domain and its complement, every stage evaluated
+
+`component D: sequence a = "2N S"; strand A = a; strand B = a*; structure D = A + B : 3( + 3)`, instance prefix `d-`. -/
+
+def dupSrc : Comp.Src :=
+  { name := "duplex", params := [], inputs := [], outputs := [],
+    stmts := [ .seq "a" [.nuc "2N S".toList] none,
+               .strand false "A" [.ref "a" false] none,
+               .strand false "B" [.ref "a" true] none,
+               .struct .default "D" ["A", "B"] false "3( + 3)".toList ] }
+
+/-- the saved component state -/
+def dupSt : Comp.St :=
+  { name := "duplex", pfx := "d-",
+    seqs := [⟨"a", false, false, 3, "NNS".toList, [], [⟨"a", false, 3⟩], true⟩],
+    strands := [⟨"A", false, 3, [⟨"a", false, 3, false⟩], [⟨"a", false, 3⟩], true⟩,
+                ⟨"B", false, 3, [⟨"a", true, 3, false⟩], [⟨"a", true, 3⟩], true⟩],
+    structs := [⟨"D", ⟨['1'], []⟩, ["A", "B"], "(((+)))".toList, [⟨"a", false, 3⟩, ⟨"a", true, 3⟩]⟩] }
+
+/-- the specification its emitted PIL loads to -/
+def dupSpec : Spec :=
+  { seqs := [⟨"d-a", false, 3, "NNS".toList, [], [⟨"d-a", false, 3⟩]⟩],
+    strands := [⟨"d-A", false, 3, [⟨"d-a", false⟩], [⟨"d-a", false, 3⟩]⟩,
+                ⟨"d-B", false, 3, [⟨"d-a", true⟩], [⟨"d-a", true, 3⟩]⟩],
+    structs := [⟨"d-D", some "1nt", ["d-A", "d-B"], "(((+)))".toList, 6, [(2, 3), (1, 4), (0, 5)]⟩] }
+
+/-- the arrays (strand layout: two blanks between the strands) and a string that satisfies them -/
+def dupArrays : Arrays :=
+  ([some 0, some 1, some 2, none, none, some 5, some 6, some 7],
+   [some 7, some 6, some 5, none, none, some 2, some 1, some 0],
+   [some 'N', some 'N', some 'S', none, none, some 'S', some 'N', some 'N'])
+
+def dupNts : List Char := "ACG  CGT".toList
+
+open Pepper.Finish in
+theorem dup_load : Comp.load dupSrc 0 "d-" 0 = .ok (dupSt, 0) := by decide +kernel
+theorem dup_hyps : Comp.UserNamesOk dupSrc = true ∧ Comp.CodesOk Generated.nupackTable dupSrc = true := by
+  decide +kernel
+open Pepper.Finish in
+theorem dup_spec : Pil.load Generated.nupackTable (Emit.compStmts dupSt) {} = .ok dupSpec := by decide +kernel
+theorem dup_distinct : MfeNamesDistinct dupSpec := by decide +kernel
+open Pepper.Finish in
+theorem dup_arrays : getConstraints .strand dupSpec = .ok dupArrays := by decide +kernel
+theorem dup_good : ArraysGood dupArrays dupNts := arraysGood_of_check (by decide +kernel)
+
+/-- stage 2, evaluated (`set_seq` is a well-founded recursion the kernel does not unfold: rewritten step by step):
+    strand `d-A` is read at 0, `d-B` at 5; `d-a` is set by the first strand and only compared by the second -/
+theorem dup_processResults : Mfe.processResults Generated.pilTable dupSpec (startOf .strand dupSpec) dupNts =
+    .ok ([("d-a", "ACG".toList)], [("d-A", "ACG".toList), ("d-B", "CGT".toList)]) := by
+  have find_a : dupSpec.findSeq "d-a" = some ⟨"d-a", false, 3, "NNS".toList, [], [⟨"d-a", false, 3⟩]⟩ := by decide +kernel
+  have s1 : startOf .strand dupSpec ⟨"d-A", false, 3, [⟨"d-a", false⟩], [⟨"d-a", false, 3⟩]⟩ = some 0 := by decide +kernel
+  have s2 : startOf .strand dupSpec ⟨"d-B", false, 3, [⟨"d-a", true⟩], [⟨"d-a", true, 3⟩]⟩ = some 5 := by decide +kernel
+  have w : Generated.pilTable.wcStr "CGT".toList = some "ACG".toList := by decide +kernel
+  have e1 : Mfe.setSeq Generated.pilTable dupSpec 3 [] ⟨"d-a", false⟩ "ACG".toList = .ok [("d-a", "ACG".toList)] := by
+    rw [Mfe.setSeq]
+    simp only [find_a, Mfe.fwdValue]
+    simp [Mfe.setFresh]
+  have e2 : Mfe.setSeq Generated.pilTable dupSpec 3 [("d-a", "ACG".toList)] ⟨"d-a", true⟩ "CGT".toList =
+      .ok [("d-a", "ACG".toList)] := by
+    rw [Mfe.setSeq]
+    simp only [find_a, Mfe.fwdValue, w]
+    simp
+  have hs : dupSpec.strands = [⟨"d-A", false, 3, [⟨"d-a", false⟩], [⟨"d-a", false, 3⟩]⟩,
+      ⟨"d-B", false, 3, [⟨"d-a", true⟩], [⟨"d-a", true, 3⟩]⟩] := rfl
+  have hl : dupSpec.seqs.length + 2 = 3 := rfl
+  have t1 : ((dupNts.drop 0).take 3) = "ACG".toList := by decide
+  have t2 : ((dupNts.drop 5).take 3) = "CGT".toList := by decide
+  have k1 : List.take 3 "ACG".toList = "ACG".toList := by decide
+  have k2 : List.take 3 "CGT".toList = "CGT".toList := by decide
+  have n1 : ("ACG".toList.length != 3) = false := by decide
+  have n2 : ("CGT".toList.length != 3) = false := by decide
+  unfold Mfe.processResults
+  rw [hs]
+  simp only [List.foldlM_cons, List.foldlM_nil, bind, Except.bind, s1, s2, t1, t2, Mfe.setStrand, hl, Mfe.setList, find_a]
+  simp only [k1, k2, n1, n2, Bool.false_eq_true, if_false, e1, e2, pure, Except.pure, List.nil_append, List.cons_append]
+
+/-- stage 3, evaluated: the lines of the `.mfe` file -/
+example : Mfe.output Generated.pilTable dupSpec [("d-a", "ACG".toList)] [("d-A", "ACG".toList), ("d-B", "CGT".toList)] =
+    some ["0:d-D", "ACG+CGT 0.000000 GC 0", "(((+)))", "(((+)))", "1:d-a", "ACG 0.000000 GC 0", "...", "...",
+          "0:d-a*", "CGT 0.000000 GC 0", "...", "...", "Total n(s*) = 0.000000"] := by decide +kernel
+
+open Pepper.Finish in
+/-- stage 4, evaluated: finishing the saved component against the records of those lines -/
+example : Finish.apply Generated.dnaTable (.comp dupSt)
+    [("d-D".toList, "ACG+CGT".toList), ("d-a".toList, "ACG".toList), ("d-a*".toList, "CGT".toList)] =
+    .ok ⟨[("d-a", "ACG".toList)], [("d-A", false, "ACG".toList), ("d-B", false, "CGT".toList)],
+         [("d-D", "ACG+CGT".toList)]⟩ := by decide +kernel
+
+/-- the records of the theorem ARE those records, whatever the assignment, as long as it reads the string:
+    for the assignment `a ↦ A, C, G` the model's record list and lines are the evaluated ones -/
+example : mfeDesign Generated.pilTable dupSpec (fun v => match v.idx with | 0 => .A | 1 => .C | _ => .G) =
+    [("d-D".toList, "ACG+CGT".toList), ("d-a".toList, "ACG".toList), ("d-a*".toList, "CGT".toList)] := by
+  decide +kernel
+
+/-- and the theorem applies: the hypotheses of `end_to_end_component` hold for the duplex, so finishing succeeds and
+    the finished output satisfies the source -/
+example : ∃ (o : Denote.Out) (ports : List (List Nuc × Bool)) (out : Finish.Out),
+    Denote.denoteComp dupSrc "d-" 0 = .ok (o, ports, 0) ∧ SatSrc Generated.pilTable (o.design []) out := by
+  obtain ⟨o, ports, _, _, out, h1, _, _, _, _, _, h7⟩ :=
+    end_to_end_component dup_load dup_hyps.1 dup_hyps.2 dup_spec dup_distinct dup_arrays dup_good
+  exact ⟨o, ports, out, h1, h7⟩
+
+/-- the known finding F13 is outside the hypothesis: a structure named like a sequence -/
+example : ¬ MfeNamesDistinct { dupSpec with structs := [⟨"d-a", some "1nt", ["d-A", "d-B"], "(((+)))".toList, 6, []⟩] } := by
   decide +kernel
 
 end Pepper.C06
